@@ -3,6 +3,12 @@
 package tensor
 
 import (
+	"encoding/json"
+	"fmt"
+	"os"
+	"path/filepath"
+	"sync"
+
 	"github.com/sahandsafizadeh/qeep/tensor/internal/gradtrack"
 	"github.com/sahandsafizadeh/qeep/tensor/internal/tensor"
 )
@@ -30,4 +36,78 @@ func VerifState(t tensor.Tensor) (tracked, spent, hasGrad bool, edges int) {
 // VerifTargets lists the operands t's backward edges point to.
 func VerifTargets(t tensor.Tensor) (targets []tensor.Tensor) {
 	return VerifContext(t).VerifTargets()
+}
+
+/* ----- trace file sink -----
+   When QEEP_VERIF_TRACE names a directory, every back-propagation performed by this process (for instance by the
+   repository's own tests run with -tags verif) is recorded in <dir>/<pid>.ndjson: the graph reachable from the root at
+   "begin" (one entry per gradient context: id, tracked, the ids its backward edges target), then one line per event.
+   Only structure is recorded, no values. */
+
+func init() {
+	dir := os.Getenv("QEEP_VERIF_TRACE")
+	if dir == "" {
+		return
+	}
+	f, err := os.OpenFile(filepath.Join(dir, fmt.Sprintf("%d.ndjson", os.Getpid())), os.O_CREATE|os.O_WRONLY|os.O_APPEND, 0o644)
+	if err != nil {
+		return
+	}
+	var mu sync.Mutex
+	ids := map[*gradtrack.GradContext]int{}
+	idOf := func(g *gradtrack.GradContext) int {
+		if id, ok := ids[g]; ok {
+			return id
+		}
+		ids[g] = len(ids) + 1
+		return ids[g]
+	}
+	emit := func(v any) {
+		b, _ := json.Marshal(v)
+		f.Write(append(b, '\n'))
+	}
+	VerifSetSink(func(e VerifEvent) {
+		mu.Lock()
+		defer mu.Unlock()
+		switch e.Kind {
+		case "begin":
+			ids = map[*gradtrack.GradContext]int{}
+			type node struct {
+				ID      int   `json:"id"`
+				Tracked bool  `json:"tracked"`
+				Targets []int `json:"targets"`
+			}
+			var nodes []node
+			seen := map[*gradtrack.GradContext]bool{}
+			var walk func(g *gradtrack.GradContext)
+			walk = func(g *gradtrack.GradContext) {
+				if seen[g] {
+					return
+				}
+				seen[g] = true
+				tracked, _, _, _ := g.VerifState()
+				n := node{ID: idOf(g), Tracked: tracked, Targets: []int{}}
+				var next []*gradtrack.GradContext
+				if tracked {
+					for _, t := range g.VerifTargets() {
+						tg := VerifContext(t)
+						n.Targets = append(n.Targets, idOf(tg))
+						next = append(next, tg)
+					}
+				}
+				nodes = append(nodes, n)
+				for _, tg := range next {
+					walk(tg)
+				}
+			}
+			walk(e.Root)
+			emit(map[string]any{"ev": "begin", "root": idOf(e.Root), "nodes": nodes})
+		case "seed":
+			emit(map[string]any{"ev": "seed"})
+		case "edge":
+			emit(map[string]any{"ev": "edge", "y": idOf(e.Consumer), "k": e.Index + 1, "x": idOf(VerifContext(e.Target)), "applied": e.Applied})
+		case "end":
+			emit(map[string]any{"ev": "end"})
+		}
+	})
 }
